@@ -423,6 +423,14 @@ class FunTranslator:
                 raise Unsupported(f'augmented assignment to non-local {s.target.id}')
             rhs = f'({op} O {x} {self.expr(s.value)})'
             return f'(vbind O {rhs} (fun {x} =>\n   {k()}))'
+        if isinstance(s, ast.Delete):
+            # `del x` of a local: the name is unbound from here on (a later use is refused as a free name)
+            for t in s.targets:
+                if not (isinstance(t, ast.Name) and t.id in self.locals):
+                    raise Unsupported(f'del of something other than a local name at line {s.lineno}')
+            for t in s.targets:
+                self.locals.discard(t.id)
+            return k()
         if isinstance(s, ast.For):
             return self.for_range(s, k)
         if isinstance(s, ast.If):
